@@ -79,6 +79,19 @@ JudgeC07(c, r) ==
      ELSE IF v = "ok@embedded" THEN "string-embedded-in-a-regexp-is-removed-from-the-order@known-embedded"
      ELSE v
 
+\* ---- C08: UnexpectedCharacters.allowed ----
+\* The lexer that gives up holds a set of terminals (all of them for the basic lexer, the ones acceptable in the parser state for
+\* the contextual one): every kept terminal of that set is "allowed" - in particular every terminal that can legally come
+\* next.  The pinned code read the set off the SCANNER, which no longer holds the string terminals embedded in a regexp
+\* (start: "if" NAME on '?': allowed = {NAME}, although IF is the only terminal that can come first).
+JudgeAllowed(c, r) ==
+  IF r.mode \notin {"basic", "ctx"} \/ r.ecls # "UnexpectedCharacters" \/ r.err < 0 THEN "ok"
+  ELSE LET held == SetOf(r.among[Len(r.toks) + 1]) \ Ign(TT(c))
+       IN IF held = {} THEN "ok"
+          ELSE IF ~(held \subseteq SetOf(r.allowed)) THEN "allowed-lacks-a-terminal-the-lexer-holds-here"
+          ELSE IF ~(SetOf(r.allowed) \subseteq held) THEN "allowed-names-a-terminal-the-lexer-does-not-hold-here"
+          ELSE "ok"
+
 \* ---- C06 ----
 RECURSIVE JudgeCoords(_, _, _)
 JudgeCoords(r, NL, k) ==
@@ -184,7 +197,7 @@ Next ==
   /\ ri' = ri + 1
   /\ LET c == Cases[tid]
          r == c.runs[ri + 1]
-         v == IF Which = "C07" THEN JudgeC07(c, r) ELSE JudgeC06(c, r)
+         v == IF Which = "C07" THEN JudgeC07(c, r) ELSE IF Which = "C08A" THEN JudgeAllowed(c, r) ELSE JudgeC06(c, r)
      IN verdict' = Verdict(tid, ri + 1, v = "ok", v, r.mode)
   /\ UNCHANGED tid
 Spec == Init /\ [][Next]_vars
